@@ -1,2 +1,7 @@
 import ADGen.Gen
 import ADGen.Equiv
+import ADGen.EquivHeapLevel
+import ADGen.EquivHeapAncestor
+import ADGen.EquivHeapDesc
+import ADGen.EquivHeapPrune
+import ADGen.EquivHeapHistory
